@@ -154,8 +154,8 @@ func (p *Parser) parseComparisonExpression() (ast.Expression, error) {
 		operator := p.currentToken.Literal
 		p.advance() // Consume LIKE/ILIKE
 
-		// Parse pattern
-		pattern, err := p.parsePrimaryExpression()
+		// Parse pattern (a value expression such as 'abc' || '%')
+		pattern, err := p.parseStringConcatExpression()
 		if err != nil {
 			return nil, goerrors.InvalidSyntaxError(
 				fmt.Sprintf("failed to parse LIKE pattern: %v", err),
@@ -338,8 +338,9 @@ func (p *Parser) parseComparisonExpression() (ast.Expression, error) {
 			}, nil
 		}
 
-		// Parse the right side of the expression
-		right, err := p.parsePrimaryExpression()
+		// Parse the right side of the expression. The operand of a comparison is a
+		// full value expression (arithmetic, concatenation, casts), not just a primary.
+		right, err := p.parseStringConcatExpression()
 		if err != nil {
 			return nil, err
 		}
